@@ -1,5 +1,5 @@
-From E2V Require Import Layout.Layout.
+From E2V Require Import Layout.Layout Layout.BackupBgs.
 Require Extraction.
 Require Import ExtrOcamlBasic.
 Extraction Language OCaml.
-Extraction "layout_model.ml" bg_has_super super_and_bgd_loc list_backups_n descriptor_block_loc descriptor_block_loc_big list_backups_ss2_n.
+Extraction "layout_model.ml" bg_has_super super_and_bgd_loc list_backups_n descriptor_block_loc descriptor_block_loc_big list_backups_ss2_n grow_b1_new.
